@@ -319,12 +319,28 @@ fn state_from_json(v: &Value) -> IdState {
 // ------------------------------------------------------------------------------------------------
 // Gallina literals
 // ------------------------------------------------------------------------------------------------
+thread_local! {
+    static USED_TAGS: std::cell::RefCell<std::collections::BTreeSet<u32>> = std::cell::RefCell::new(std::collections::BTreeSet::new());
+}
+/// vectors / metadata are referred to by name (`V12`, `M12`); the shard preamble defines every name used
 fn g_vec(tag: u32) -> String {
-    let v = vec_of(tag);
-    format!("[{}]%Z", v.iter().map(|x| x.to_bits().to_string()).collect::<Vec<_>>().join("; "))
+    USED_TAGS.with(|u| u.borrow_mut().insert(tag));
+    format!("V{}", tag)
 }
 fn g_meta(tag: u32) -> String {
-    format!("[(0, {})]%N", tag)
+    USED_TAGS.with(|u| u.borrow_mut().insert(tag));
+    format!("M{}", tag)
+}
+fn pool_defs() -> String {
+    let mut s = String::new();
+    USED_TAGS.with(|u| {
+        for t in u.borrow().iter() {
+            let v = vec_of(*t);
+            let _ = writeln!(s, "Definition V{} : vec := [{}]%Z.", t, v.iter().map(|x| x.to_bits().to_string()).collect::<Vec<_>>().join("; "));
+            let _ = writeln!(s, "Definition M{} : meta := [(0, {})]%N.", t, t);
+        }
+    });
+    s
 }
 fn g_tok(ver: u64, dig: u32) -> String {
     format!("({}%N, {})", ver, g_vec(dig))
@@ -843,11 +859,10 @@ fn run_solo_and_directed(w: &mut World, scratch: &str, cl: &mut Classes, dg: &Di
             let nsec = sk.section_ordinals.len();
             for b in calls_b(st) {
                 for (j, ord) in sk.section_ordinals.iter().enumerate() {
-                    if quick && nsec > 6 && j % 2 == 1 && !matches!(a, Call::GetDoc(_) | Call::Bulk(_)) && !matches!(b, Call::Delete(_)) {
-                        // quick tier: thin out the long programs (insert) for the read-only B's
-                        if matches!(b, Call::Query(_) | Call::GetDoc(_)) {
-                            continue;
-                        }
+                    // quick tier: a read-only B matters only against a writing A (reads interact through the caches only)
+                    let a_writes = matches!(a, Call::Insert(..) | Call::Delete(_));
+                    if quick && matches!(b, Call::Query(_) | Call::GetDoc(_)) && !a_writes {
+                        continue;
                     }
                     refresh_world(w, scratch);
                     for (id, s) in &sts {
@@ -1183,8 +1198,9 @@ fn replay(path: &str, scratch: &str, out: &mut Out, cl: &mut Classes, dg: &Diges
             let d = directed(&w, &a, &b, sk.section_ordinals[j]);
             let _ = dg;
             println!("replay directed: A = {:?} -> {:?}; B = {:?} -> {:?}", a, d.ra, b, d.rb);
-            let c2 = json!({"kind": "directed", "states": case["states"], "thread_A": call_json(&a), "thread_B": call_json(&b), "pause_before_section": j,
-                "result_A": res_json(&d.ra), "result_B": res_json(&d.rb)});
+            let mut c2 = case.clone();
+            c2["result_A"] = res_json(&d.ra);
+            c2["result_B"] = res_json(&d.rb);
             for (k, why) in directed_oracles(&sts, &a, &d.ra, &b, &d.rb) {
                 out.oracle_failures.push(json!({"kind": k, "why": why, "case": c2.clone()}));
             }
@@ -1215,6 +1231,7 @@ fn replay(path: &str, scratch: &str, out: &mut Out, cl: &mut Classes, dg: &Diges
 fn write_shard(dir: &str, k: usize, solo: &[String], dirc: &[String]) {
     let mut s = String::new();
     s.push_str("From Coq Require Import List NArith ZArith Bool.\nFrom Kyro Require Import Model.TMap Model.Tiered Model.Conc05.\nImport ListNotations.\n");
+    s.push_str(&pool_defs());
     let _ = writeln!(s, "Definition solo_cases : list (nat * (bool * bool * bool)) := [\n{}].", solo.join(";\n"));
     let _ = writeln!(s, "Definition dir_cases : list (nat * (bool * bool)) := [\n{}].", dirc.join(";\n"));
     s.push_str("Definition solo_v := Eval vm_compute in solo_cases.\nDefinition dir_v := Eval vm_compute in dir_cases.\n");
